@@ -84,13 +84,32 @@ Axes == {"ancestor", "ancestor-or-self", "attribute", "child", "descendant", "de
          "following", "following-sibling", "namespace", "parent", "preceding", "preceding-sibling", "self"}
 ReverseAxes == {"ancestor", "ancestor-or-self", "preceding", "preceding-sibling"}
 
+\* Catalogued deviation "namespace-nodes-shared" (as-is model): an element's namespace nodes are not nodes of
+\* its own - the implementation hands out ONE object per declaration (and one for the implicit xml binding) to
+\* every element in whose scope it is.  Such a node has no owner element, hence no parent, no ancestors and
+\* nothing following or preceding it, and the namespace nodes that several elements inherit from one
+\* declaration are one node wherever node-sets are merged (NsOrigin).
+NsShared == "namespace-nodes-shared" \in Dev
+DetachedNs(d, i) == NsShared /\ Kind(d, i) = "ns"
+SameBinding(d, i, j) == Kind(d, j) = "ns" /\ d.nodes[j].loc = d.nodes[i].loc /\ d.nodes[j].v = d.nodes[i].v
+RECURSIVE NsOrigin(_, _)
+NsOrigin(d, i) ==
+  IF Kind(d, i) # "ns" THEN i
+  ELSE IF d.nodes[i].loc = <<120, 109, 108>>                          \* the implicit xml binding: one node per document
+       THEN CHOOSE j \in 1..N(d) : SameBinding(d, i, j) /\ \A m \in 1..(j - 1) : ~SameBinding(d, i, m)
+  ELSE LET e  == Par(d, i)
+           pe == Par(d, e)
+           up == IF pe = 0 THEN {} ELSE {j \in 1..N(d) : Par(d, j) = pe /\ SameBinding(d, i, j)}
+       IN  IF up = {} THEN i ELSE NsOrigin(d, CHOOSE j \in up : TRUE)
+Merge(d, S) == IF NsShared THEN {NsOrigin(d, i) : i \in S} ELSE S
+
 AxisSet(d, ax, i) ==
   CASE ax = "child"              -> Children(d, i)
     [] ax = "descendant"         -> Desc(d, i)
     [] ax = "descendant-or-self" -> {i} \cup Desc(d, i)
-    [] ax = "parent"             -> IF Par(d, i) = 0 THEN {} ELSE {Par(d, i)}
-    [] ax = "ancestor"           -> Anc(d, i)
-    [] ax = "ancestor-or-self"   -> {i} \cup Anc(d, i)
+    [] ax = "parent"             -> IF Par(d, i) = 0 \/ DetachedNs(d, i) THEN {} ELSE {Par(d, i)}
+    [] ax = "ancestor"           -> IF DetachedNs(d, i) THEN {} ELSE Anc(d, i)
+    [] ax = "ancestor-or-self"   -> IF DetachedNs(d, i) THEN {i} ELSE {i} \cup Anc(d, i)
     [] ax = "self"               -> {i}
     [] ax = "attribute"          -> {j \in (i + 1)..N(d) : Par(d, j) = i /\ Kind(d, j) = "attr"}
     [] ax = "namespace"          -> {j \in (i + 1)..N(d) : Par(d, j) = i /\ Kind(d, j) = "ns"}
@@ -100,8 +119,8 @@ AxisSet(d, ax, i) ==
                                     ELSE {j \in 1..(i - 1) : Par(d, j) = Par(d, i) /\ ~IsAN(d, j)}
     \* all nodes after the context node in document order, excluding descendants, attribute
     \* and namespace nodes (for an attribute context node this starts with the owner's children)
-    [] ax = "following"          -> {j \in (i + 1)..N(d) : ~IsAN(d, j) /\ i \notin Anc(d, j)}
-    [] ax = "preceding"          -> {j \in 1..(i - 1) : ~IsAN(d, j) /\ j \notin Anc(d, i)}
+    [] ax = "following"          -> IF DetachedNs(d, i) THEN {} ELSE {j \in (i + 1)..N(d) : ~IsAN(d, j) /\ i \notin Anc(d, j)}
+    [] ax = "preceding"          -> IF DetachedNs(d, i) THEN {} ELSE {j \in 1..(i - 1) : ~IsAN(d, j) /\ j \notin Anc(d, i)}
 
 PrincipalKind(ax) == IF ax = "attribute" THEN "attr" ELSE IF ax = "namespace" THEN "ns" ELSE "elem"
 
@@ -320,7 +339,7 @@ Call(d, f, av, c) ==
 PredHolds(d, x, pos) ==
   IF x.t = "num" THEN FromB3(NumEq(x.n, OfInt(pos))) ELSE ToBool(d, x)
 
-UnionSeq(vals) == SortedSeq(UNION { RangeOf(vals[k].v) : k \in 1..Len(vals) })
+UnionSeq(d, vals) == SortedSeq(Merge(d, UNION { RangeOf(vals[k].v) : k \in 1..Len(vals) }))
 
 RECURSIVE Eval(_, _, _, _)
 RECURSIVE Filter(_, _, _, _)
@@ -358,7 +377,7 @@ EvalSteps(d, start, steps, binds) ==
   ELSE LET vals == [k \in 1..Len(start) |-> EvalStep(d, Head(steps), start[k], binds)] \o <<>>
            bad  == FirstBad(vals)
        IN  IF bad.t # "none" THEN bad
-           ELSE EvalSteps(d, UnionSeq(vals), Tail(steps), binds)
+           ELSE EvalSteps(d, UnionSeq(d, vals), Tail(steps), binds)
 
 Eval(d, e, c, binds) ==
   CASE e.t = "num" -> NumV(e.n)
@@ -374,7 +393,7 @@ Eval(d, e, c, binds) ==
                   b == Eval(d, e.r, c, binds)
               IN  IF Bad(a) THEN a ELSE IF Bad(b) THEN b
                   ELSE IF e.op = "|"
-                  THEN IF a.t = "nodes" /\ b.t = "nodes" THEN NodesV(UnionSeq(<<a, b>>)) ELSE Err
+                  THEN IF a.t = "nodes" /\ b.t = "nodes" THEN NodesV(UnionSeq(d, <<a, b>>)) ELSE Err
                   ELSE IF e.op \in {"+", "-", "*", "div", "mod"}
                   THEN NumV(Arith(e.op, ToNum(d, a).n, ToNum(d, b).n))
                   ELSE Compare(d, e.op, a, b)
